@@ -21,7 +21,7 @@ CONSTANTS MaxGen, NDig,   \* revision universe
           MaxSteps,       \* bound on the length of a behaviour
           Reps,           \* replica ids (1..1 or 1..2)
           Depths,         \* prune depths explored at tree level
-          Configs,        \* set of [lvl, ac, lim, gv] records
+          Configs,        \* set of [lvl, ac, lim, gv, n] records (n = number of replicas the behaviour uses)
           Feed,           \* TRUE: only mutually consistent, accepted-or-not chain feeding (order-independence runs)
           Lean,           \* TRUE: drop environment choices that can only be rejected for a missing parent
           GoodChains,     \* histories the environment may send (MC: all generation-decreasing sequences; trace: unused)
@@ -198,12 +198,14 @@ ImplPutChild(i, p, r, del, b) ==
 NoPre == [on |-> FALSE, i |-> 0, k |-> "", t |-> EmptyTree, c |-> Nil, x |-> {}]
 (* a rejected input leaves no trace in the ghosts: the ground truth is about accepted revisions *)
 GhostInput(i, full, del, nc, b, ok, kind, x) ==
-  /\ fed' = [fed EXCEPT ![i] = Append(@, [ch |-> full, del |-> del, nc |-> nc])]
+  /\ IF cfg.n > 1 THEN fed' = [fed EXCEPT ![i] = Append(@, [ch |-> full, del |-> del, nc |-> nc])] ELSE UNCHANGED fed
   /\ IF ok
      THEN /\ btok' = Tok2(full[1], b)
-          /\ cons' = (cons /\ ChainCons(full, del))
-          /\ upar' = UparAfter(full) /\ udel' = UdelAfter(full, del)
-          /\ acc' = [acc EXCEPT ![i] = @ \cup {[ch |-> full, del |-> del]}]
+          /\ IF cfg.n > 1                \* the order-independence ghosts are kept only when there is a second replica
+             THEN /\ cons' = (cons /\ ChainCons(full, del))
+                  /\ upar' = UparAfter(full) /\ udel' = UdelAfter(full, del)
+                  /\ acc' = [acc EXCEPT ![i] = @ \cup {[ch |-> full, del |-> del]}]
+             ELSE UNCHANGED <<cons, upar, udel, acc>>
           /\ pruned' = (pruned \/ (kind = "db" /\ cfg.lim > 0))
           /\ pre' = [on |-> (kind = "db" /\ cfg.lim > 0), i |-> i, k |-> "write", t |-> tree[i], c |-> cur[i], x |-> x]
           /\ UNCHANGED cfg
@@ -308,12 +310,12 @@ ReloadPreserves == \A i \in Reps : mem[i] = tree[i]
 WinningBody == \A i \in Reps : (cur[i] \in DOMAIN tree[i] /\ ~tree[i][cur[i]].del) => wb[i] = btok[cur[i]]
 (* two replicas that accepted the same set of revisions (with their ancestries), in any orders *)
 OrderIndependent == \A i, j \in Reps :
-  (cons /\ ~pruned /\ acc[i] = acc[j]) =>
+  (cfg.n > 1 /\ cons /\ ~pruned /\ acc[i] = acc[j]) =>
      /\ LeafInfo(tree[i]) = LeafInfo(tree[j]) /\ cur[i] = cur[j] /\ win[i].w = win[j].w /\ wb[i] = wb[j]
 
 (* auxiliary / design invariants (model and pass C) *)
 OrderIndependentStructure == \A i, j \in Reps :    \* ... and even the same revisions and parents
-  (cons /\ ~pruned /\ acc[i] = acc[j]) => /\ DOMAIN tree[i] = DOMAIN tree[j]
+  (cfg.n > 1 /\ cons /\ ~pruned /\ acc[i] = acc[j]) => /\ DOMAIN tree[i] = DOMAIN tree[j]
                                             /\ \A r \in DOMAIN tree[i] : tree[i][r].p = tree[j][r].p
 CurIsWin == \A i \in Reps : cur[i] = win[i].w
 Bounded == \A i \in Reps : Cardinality(DOMAIN tree[i]) <= MaxRevs
